@@ -119,6 +119,39 @@ def fjsp_reader_layout(ctx: Ctx, pj):
     return order_r, adv, nops_ok, why_r
 
 
+def no_state_in_default_arguments(ctx: Ctx):
+    """C19.k a loader that is called once per directory returns what is in THAT directory: no function of the code that reads instances (rl4co/data, the generator / parser / env modules
+    under rl4co/envs) has a mutable default argument (list / dict / set literal) that its body mutates (`files += [...]`, `.append`,
+    `.extend`, `.update`, item assignment).  The default object is created once per process, so the second call still holds
+    the first call's files: the validation set silently contains the training directory as well."""
+    n = 0
+    for name, mi in sorted(ctx.repo.modules.items()):
+        # the code that reads instances from disk: data utilities, generators (file generators included), parsers, env.load_data
+        if not (name.startswith("rl4co.data") or (name.startswith("rl4co.envs") and (name.endswith(".generator") or name.endswith(".parser") or name.endswith(".env")))):
+            continue
+        for fn_ in [f for c in mi.classes.values() for f in c.methods.values()] + list(mi.functions.values()):
+            a = fn_.node.args
+            params = [x.arg for x in a.posonlyargs + a.args]
+            muts = {params[len(params) - len(a.defaults) + i] for i, d in enumerate(a.defaults) if isinstance(d, (ast.List, ast.Dict, ast.Set))}
+            muts |= {k.arg for k, d in zip(a.kwonlyargs, a.kw_defaults) if isinstance(d, (ast.List, ast.Dict, ast.Set))}
+            if not muts:
+                continue
+            n += 1
+            bad = []
+            for st in ast.walk(fn_.node):
+                if isinstance(st, ast.AugAssign) and isinstance(st.target, ast.Name) and st.target.id in muts:
+                    bad.append(f"{st.target.id} {type(st.op).__name__}= ... (line {st.lineno})")
+                if isinstance(st, ast.Assign) and any(isinstance(t, ast.Subscript) and isinstance(t.value, ast.Name) and t.value.id in muts for t in st.targets):
+                    bad.append(f"item assignment (line {st.lineno})")
+                if isinstance(st, ast.Call) and isinstance(st.func, ast.Attribute) and isinstance(st.func.value, ast.Name) and st.func.value.id in muts \
+                        and st.func.attr in ("append", "extend", "update", "add", "insert", "setdefault", "pop", "clear"):
+                    bad.append(f"{st.func.value.id}.{st.func.attr}(...) (line {st.lineno})")
+            ctx.ob("C19.k", f"{fn_.qualname}:default-arguments-not-mutated", not bad, fn_.loc,
+                   f"mutable default(s) {sorted(muts)} are only read" if not bad else f"mutable default mutated: {bad[0]} -- the object survives the call and accumulates across calls in one process",
+                   construct=f"{fn_.qualname}:mutable-default-mutated")
+    ctx.extra["functions_with_mutable_defaults"] = n
+
+
 def restored_keys_keep_their_namespace(ctx: Ctx):
     """C19.j a checkpoint's state-dict keys are hierarchical names (`policy.encoder...`, `baseline.baseline.policy.encoder...`).
     Code that rewrites them before `load_state_dict` (dict comprehensions over `state_dict.items()` in rl4co/models) may REMOVE a
@@ -157,6 +190,7 @@ def run(ctx: Ctx):
     round_trip_conventions(ctx)
     hparams_keep_policy(ctx)
     restored_keys_keep_their_namespace(ctx)
+    no_state_in_default_arguments(ctx)
     # ---------------- a: npz
     sv = ctx.repo.get_function(DU, "save_tensordict_to_npz")
     ld = ctx.repo.get_function(DU, "load_npz_to_tensordict")
@@ -607,7 +641,19 @@ def round_trip_conventions(ctx: Ctx):
                 src = defs_[-1] if defs_ else None
         txtw = ast.unparse(src) if src is not None else ""
         inst = [p_ for p_ in wr.params() if p_ != "where"]
-        wide = src is not None and "len(str(len(" in txtw.replace(" ", "") and any(p_ in txtw for p_ in inst) and "min(" not in txtw
+        # the digits counted are those of the LARGEST 1-based index, i.e. of len(instances) itself (or of something larger)
+        exact = False
+        if src is not None:
+            for c_ in ast.walk(src):
+                if isinstance(c_, ast.Call) and isinstance(c_.func, ast.Name) and c_.func.id == "str" and c_.args:
+                    a_ = c_.args[0]
+                    plus = 0
+                    if isinstance(a_, ast.BinOp) and isinstance(a_.op, (ast.Add, ast.Sub)) and isinstance(a_.right, ast.Constant) and isinstance(a_.right.value, int):
+                        plus = a_.right.value if isinstance(a_.op, ast.Add) else -a_.right.value
+                        a_ = a_.left
+                    if isinstance(a_, ast.Call) and isinstance(a_.func, ast.Name) and a_.func.id == "len" and a_.args and isinstance(a_.args[0], ast.Name) and a_.args[0].id in inst and plus >= 0:
+                        exact = True
+        wide = src is not None and exact and "min(" not in txtw
         whyw = f"width = {txtw[:60]} handed over by write(): derived from the number of instances -- {wide}"
     ctx.ob("C19.i", "fjsp.parser.write_one:pad-width-covers-the-set", wide, fw.loc, whyw, construct="fjsp.parser.write_one:pad-width")
     # (2)
